@@ -81,16 +81,18 @@ def is_lib(path):
 
 
 def parse_reports(detail):
-    """sanitizer reports in a SAN/LEAK detail: list of dict(kind, where, fn, frames)"""
+    """sanitizer reports in a SAN/LEAK detail: list of dict(kind, where, fn, frames).  The harness keeps the head and the
+    tail of an over-long stderr (' ...[cut]... ' in between): the report cut at the end of the head is dropped."""
+    if ' ...[cut]... ' in detail:
+        head, tail = detail.split(' ...[cut]... ', 1)
+        h = parse_reports(head)
+        return (h[:-1] if len(h) > 1 else h) + parse_reports(tail)
     reps = []
     # split at the beginning of each report
     marks = [m.start() for m in re.finditer(r'(?:\S+:\d+:\d+: runtime error:|==\d+==ERROR: (?:Address|Leak)Sanitizer)', detail)]
     marks.append(len(detail))
-    truncated = detail.endswith('...[truncated]')
     for a, b in zip(marks, marks[1:]):
         seg = detail[a:b]
-        if truncated and b == len(detail) and len(marks) > 2:
-            break                  # the last report was cut off by the harness' size cap: the earlier ones are complete
         frames = re.findall(r'#\d+ 0x[0-9a-f]+ in (.*?) (/[^ |]+?):(\d+)', seg)
         libf = [(fn, fl, ln) for fn, fl, ln in frames if is_lib(fl)]
         m = re.match(r'(\S+):(\d+):\d+: runtime error: ([^|]*)', seg)
@@ -372,15 +374,15 @@ def fields(o):
 
 
 def crashed_line(exe, fails, env):
+    """the input line on which a (non-forking) tie harness died, its exit code and the HEAD of its stderr (one line)"""
     for shard, rc, err, got in fails:
         start = max(0, len(got or []) - 1)
-        ln, rc2, err2 = vf.isolate_failure(exe, shard[start:start + 60], env=env, timeout=60)
-        if ln:
-            return ln, rc2, err2
-        ln, rc2, err2 = vf.isolate_failure(exe, shard[:200], env=env, timeout=60)
-        if ln:
-            return ln, rc2, err2
-    return None, None, fails[0][2] if fails else ''
+        for part in (shard[start:start + 60], shard[:200]):
+            ln, rc2, err2 = vf.isolate_failure(exe, part, env=env, timeout=60)
+            if ln:
+                p = vf.run_lines(exe, [ln], env=env, timeout=60)
+                return ln, rc2, (p.stderr or err2)[:8000].replace('\n', ' | ')
+    return None, None, (fails[0][2] if fails else '').replace('\n', ' | ')
 
 
 def tie_inversions(ctx, exe, oracle, n_cases, found):
@@ -390,7 +392,7 @@ def tie_inversions(ctx, exe, oracle, n_cases, found):
     out, fails = vf.par_lines(exe, lines, env=ENV_TIE, timeout=1200)
     if fails:
         ln, rc, err = crashed_line(exe, fails, ENV_TIE)
-        rp = parse_reports(err.replace('\n', ' | '))
+        rp = parse_reports(err)
         k = rp[0] if rp else dict(kind='crash', fn='', text=err[-300:])
         found['isect.%s.%s' % (k['kind'], k['fn'] or 'cx_isect')] = dict(
             what='the real BuildIntersectList/ProcessIntersectList on a synthetic AEL: %s in %s: %s' % (k['kind'], k['fn'] or '?', k['text'][:300]),
@@ -521,7 +523,7 @@ def tie_addpaths(ctx, exes, oracle, n_cases, found):
         out, fails = vf.par_lines(exe, lines, env=ENV_TIE, timeout=1200)
         if fails:
             ln, rc, err = crashed_line(exe, fails, ENV_TIE)
-            rp = parse_reports(err.replace('\n', ' | '))
+            rp = parse_reports(err)
             k = rp[0] if rp else dict(kind='crash', fn='', text=err[-300:])
             found['addpaths.%s.%s' % (k['kind'], k['fn'] or 'AddPaths_')] = dict(
                 what='the real AddPaths_: %s in %s [%s]: %s' % (k['kind'], k['fn'] or '?', variant, k['text'][:300]),
@@ -551,7 +553,7 @@ def tie_addpaths(ctx, exes, oracle, n_cases, found):
 def newfail(ctx, exe, variant, cases, upto, nsample, found):
     t0 = time.time()
     lines = ['NF %d %d 2 %s' % (upto, nsample, c['line']) for c in cases]
-    res = run_supervised(exe, lines, ENV_NF, 120000, 4096, chunk=6, what='cx_newfail[%s]' % variant)
+    res = run_supervised(exe, lines, ENV_NF, 60000, 4096, chunk=6, what='cx_newfail[%s]' % variant)     # 60 s CPU per injected run
     runs = 0
     for c, r in zip(cases, res):
         ctx.hist('newfail_status_' + variant, r['status'])
@@ -669,14 +671,14 @@ def run(ctx):
         by = collections.defaultdict(list)
         for c in okc:
             by[c['op']].append(c)
-        per = (40 if variant == 'asan' else 12) if quick else (400 if variant == 'asan' else 120)
+        per = (100 if variant == 'asan' else 25) if quick else (500 if variant == 'asan' else 150)
         sel = []
         for op in sorted(by):
             l = by[op]
             step = max(1, len(l) // per)
             sel += l[::step][:per]
         if quick:
-            newfail(ctx, exes[('nf', variant)], variant, sel, 48, 16, found)
+            newfail(ctx, exes[('nf', variant)], variant, sel, 128, 16, found)
         else:
             newfail(ctx, exes[('nf', variant)], variant, sel, 10 ** 9, 0, found)
         ctx.count('evaluations', len(sel))
